@@ -28,7 +28,8 @@ def shards(tier, seed):
              'frames': 14 if q else 220, 'values': 8 if q else 255,
              'max_positions': 160 if q else 400, 'tag_sweep': 0.3,
              'rand': 300 if q else 6000,
-             'deep': [16, 32, 64] if i == 1 else [], 'big': []}
+             'deep': [16, 32, 64] if i == 1 else [],
+             'deep_fault': [4, 16, 40, 60] if i == 2 else [], 'big': []}
             for i in range(n)]
 
 
